@@ -88,7 +88,8 @@ static void emitConst(json::OStream &J, const Constant *c, int depth) {
   if (auto *ci = dyn_cast<ConstantInt>(c)) {
     J.array([&] {
       J.value("c");
-      if (ci->getBitWidth() <= 64) J.value(ci->getSExtValue()); else J.value(0);
+      if (ci->getBitWidth() == 1) J.value((int64_t)ci->getZExtValue());
+      else if (ci->getBitWidth() <= 64) J.value(ci->getSExtValue()); else J.value(0);
       J.value((int64_t)ci->getBitWidth());
     });
     return;
